@@ -259,9 +259,9 @@ pub fn property() -> Property {
     for dname in DRIVERS {
         let dname: &'static str = dname;
         let (q, t) = match dname {
-            "cram" => (30, 800),
-            "bgzf" | "bgzf-mt" => (40, 1000),
-            _ => (60, 1500),
+            "cram" => (120, 1600),
+            "bgzf" | "bgzf-mt" => (160, 2000),
+            _ => (300, 4000),
         };
         subs.push(
             ClosureSub::<Case> {
